@@ -104,6 +104,14 @@ def judge_node(n0, n1, live, old_all=frozenset()):
     l1 = leaf_label(n1)
     if l1 is None and l0 not in live:
         return "ok"
+    if l1 != l0 and l0[0] == "w" and l1 is not None and l1[0] == "w" and type(n0) is type(n1) \
+            and str(getattr(n0, "name", "")) == str(getattr(n1, "name", None)):
+        # the same write rewritten in place with part of its right-hand side moved elsewhere (lift_reduce_constant
+        # lifts the constant factor out of 'acc += 7.0 * x[i]'): still the statement the cursor was created on
+        lits0 = set(l0[1]) if isinstance(l0[1], tuple) else set()
+        lits1 = set(l1[1]) if isinstance(l1[1], tuple) else set()
+        if lits1 <= lits0:
+            return "ok"
     return "ok" if l1 == l0 else "wrong-statement"
 
 
